@@ -202,6 +202,13 @@ def _observe(env, edges, log):
         free = st.capacity - len(st.items) - len(st.ready_items) - len(st.reservations_put)
         if st.reserve_put_queue and free > 0 and not hasattr(ed, "belt"):      # a belt's entrance opens by the passage of time
             log.lines.append("OBS %d %d put %d %d" % (env.now, i, len(st.reserve_put_queue), free))
+        if hasattr(ed, "belt") and st.reserve_put_queue and not st.reservations_put and hasattr(st, "can_reserve_put"):
+            # ... so the belt store's own side-effect-free admission test is asked instead
+            try:
+                if st.can_reserve_put():
+                    log.lines.append("OBS %d %d put %d %d" % (env.now, i, len(st.reserve_put_queue), max(free, 1)))
+            except Exception:  # noqa
+                pass
         avail = len(st.ready_items) - len(st.reservations_get)
         if st.reserve_get_queue and avail > 0:
             log.lines.append("OBS %d %d get %d %d" % (env.now, i, len(st.reserve_get_queue), avail))
@@ -457,8 +464,36 @@ def gen_policy(rng, k, allow_bad=False):
     return ("S", [rng.randrange(k) for _ in range(rng.choice([1, 2, 3, 5]))])
 
 
+def gen_config_conv_fanout(rng):
+    """source -> buffer -> multi-worker FIRST_AVAILABLE machine -> {small buffer -> slow machine -> sink, conveyor -> sink}:
+    workers that finish together, are granted room on several out-edges, commit to one and withdraw the others"""
+    def nd(kind, **kw):
+        d = dict(kind=kind, ins=[], outs=[], style="const", blocking=True, setup=0, wcap=1, insel=("FA",), outsel=("FA",), delays=[0])
+        d.update(kw)
+        return d
+    nodes = [nd("source", delays=[rng.choice([1, 1, 2])], blocking=rng.random() < 0.8),
+             nd("machine", wcap=rng.choice([2, 2, 3]), setup=rng.choice([2, 3, 5]), delays=[rng.choice([1, 2, 2, 3])],
+                blocking=rng.random() < 0.85, outsel=rng.choice([("FA",), ("FA",), ("FA",), ("RR",)])),
+             nd("machine", delays=[rng.choice([5, 7, 9])], setup=rng.choice([0, 0, 60])),
+             nd("sink"), nd("sink")]
+    conv = dict(kind="conv", ckind=rng.choice(["cont", "slot", "slot"]), cap=rng.choice([1, 2, 3]), acc=rng.choice([0, 1]), src=1, dst=4)
+    small = dict(kind="buffer", cap=rng.choice([1, 1, 2]), mode="FIFO", delays=[rng.choice([0, 0, 2])], style="const", src=1, dst=2)
+    outs = [small, conv] if rng.random() < 0.7 else [conv, small]
+    edges = [dict(kind="buffer", cap=rng.choice([3, 4, 6]), mode="FIFO", delays=[0], style="const", src=0, dst=1)] + outs + \
+            [dict(kind="buffer", cap=2, mode="FIFO", delays=[0], style="const", src=2, dst=3)]
+    connects = [(i, e["src"], e["dst"]) for i, e in enumerate(edges)]
+    for (i, s_, d_) in connects:
+        nodes[s_]["outs"].append(i)
+        nodes[d_]["ins"].append(i)
+    order = ["N%d" % i for i in range(len(nodes))] + ["E%d" % i for i in range(len(edges))]
+    rng.shuffle(order)
+    return dict(model="factory", T=rng.choice([20, 30, 40]), nodes=nodes, edges=edges, connects=connects, order=order, model_skip=True)
+
+
 def gen_config_conv(rng):
     """a factory in which some edges are conveyors: run on the implementation only and judged by the oracle"""
+    if rng.random() < 0.25:
+        return gen_config_conv_fanout(rng)
     sc = rng.random() < 0.3
     c = gen_config_sc(rng) if sc else gen_config(rng, with_fleet=rng.random() < 0.3)
     pallet_in = set(n["ins"][0] for n in c["nodes"] if n["kind"] == "combiner" and n["ins"])
